@@ -32,11 +32,17 @@ Proof.
   apply andb_true_iff in E as [E1 E2]. apply N.eqb_eq in E1. apply optN_eqb_eq in E2. now subst.
 Qed.
 
+Lemma in_offsets_from k : forall start x, start <= x -> x < start + N.of_nat k -> In x (offsets_from k start).
+Proof.
+  induction k as [|k IH]; intros start x L U.
+  - cbn in U. lia.
+  - cbn [offsets_from]. destruct (N.eq_dec x start) as [->|NE]; [now left|].
+    right. apply IH; [lia|]. rewrite Nat2N.inj_succ in U. lia.
+Qed.
+
 Lemma in_offsets n pc : pc < n -> In pc (offsets n).
 Proof.
-  intro L. unfold offsets. apply in_map_iff. exists (N.to_nat pc). split.
-  - apply N2Nat.id.
-  - apply in_seq. lia.
+  intro L. unfold offsets. apply in_offsets_from; [lia|]. rewrite N2Nat.id. lia.
 Qed.
 
 Lemma byte_some p pc b : byte p pc = Some b -> pc < plen p.
